@@ -208,10 +208,33 @@ def genBaseDir (size : Nat) : Gen (BaseDir × Nat) := do
     else pure []
   return (⟨dbs.toList, strayFiles, strayDirs⟩, nbad)
 
+/-- a block with a plausible header, stamped good or bad for its relation-wide number -/
+def fixedBlock (seg i : Nat) (good : Bool) : RawBlock :=
+  stamp ⟨⟨seg + 1, i + 1, 0, 0, 28, 8000, 8192, 8196, 0⟩, [UInt8.ofNat (seg * 16 + i + 1)] ++ zeros 8167⟩
+    (seg * 131072 + i) good (seg + i)
+
+/-- deterministic directories: 0 = one relation with every segment 0..12 present (good and bad blocks
+alternating) next to every kind of non-relation file; 1 = the witness of defect A60 -/
+def fixedBaseDirs : List BaseDir :=
+  let noise (names : List String) : List (Bytes × Bytes) := names.map fun n => (strBytes n, noiseData)
+  let d0 : Database :=
+    { oid := 16384,
+      segs := (List.range 13).map fun s =>
+        ⟨2619, s, ⟨(List.range (1 + s % 2)).map fun i => fixedBlock s i ((s + i) % 2 == 0), if s == 12 then [1, 2, 3] else []⟩⟩,
+      others := noise ["PG_VERSION", "pg_filenode.map", "pg_internal.init", "2619_fsm", "2619_vm", "2619_vm.1", "2619_init",
+        "2619.1x", "2619.", ".1", "t3_2619", "2619.x", "2619.-1", "2619.+1", "2619.1.bak", "2619.10_fsm"],
+      subdirs := [strBytes "pgsql_tmp", strBytes "777"] }
+  let d1 : Database :=
+    { oid := 1,
+      segs := [0, 1, 9, 10, 11].map fun s => ⟨100, s, ⟨[fixedBlock s 0 false], []⟩⟩,
+      others := noise ["100.x", "100_fsm", "100.1x", "PG_VERSION", "pg_filenode.map", "100.", ".1"],
+      subdirs := [] }
+  [⟨[d0], [strBytes "PG_VERSION"], [(strBytes "pgsql_tmp", [(strBytes "2619", noiseData)])]⟩, ⟨[d1], [], []⟩]
+
 /-- args: the flat entries (shuffled: the order of creation must not matter) -/
 def cksumdirGen (seed idx size : Nat) : Case :=
   let g : Gen (BaseDir × Nat × Flat) := do
-    let (b, nbad) ← genBaseDir size
+    let (b, nbad) ← if idx < fixedBaseDirs.length then pure (fixedBaseDirs.getD idx default, 1) else genBaseDir size
     let fl := flatten b
     -- keep "base" first so that the tree exists, shuffle the rest
     let rest ← Gen.shuffle (fl.drop 1)
@@ -225,6 +248,33 @@ def cksumdirGen (seed idx size : Nat) : Case :=
 
 def cksumdirEval (args : List String) : String := cksumdirOut (parseFlat args)
 
-def cksumdir : Family := { name := "cksumdir", gen := cksumdirGen, eval := cksumdirEval, fixed := 0 }
+def cksumdir : Family := { name := "cksumdir", gen := cksumdirGen, eval := cksumdirEval, fixed := fixedBaseDirs.length }
+
+/-! ## toolcksum: the tool's own two checksum functions on arbitrary input (reached by name in the harness) -/
+
+def toolcksumOut (data : Bytes) (bn : Nat) : String :=
+  s!"{Model.computePageChecksum data bn}:{Model.pgChecksumBlock data bn}"
+
+/-- args: block number, data (any length).  The spec is silent: these functions are the tool's own. -/
+def toolcksumGen (seed idx _size : Nat) : Case :=
+  let g : Gen (Nat × Bytes) := do
+    let bn ← Gen.Block.gen32
+    let data ← match ← Gen.below 6 with
+      | 0 => Gen.bytes (← Gen.oneOf [0, 1, 3, 4, 8, 9, 10, 11, 12, 127, 128, 129, 131])
+      | 1 => (do let b ← Gen.Block.genBlock; pure ((encBlock b).take (← Gen.oneOf [8191, 8190, 8189, 8188, 4096, 24])))
+      | 2 => (do let b ← Gen.Block.genBlock; pure (encBlock b ++ (← Gen.bytes (← Gen.oneOf [1, 2, 3, 4, 5, 8192]))))
+      | 3 => Gen.bytes (← Gen.oneOf [8192, 8192, 256, 512])
+      | _ => (do let b ← Gen.Block.genBlock; pure (encBlock b))
+    return (bn, data)
+  let (bn, data) := g.run' (Prng.ofSeed seed idx)
+  { tags := [if data.length < 8192 then "len<8192" else if data.length == 8192 then "len=8192" else "len>8192", "nt"],
+    model := toolcksumOut data bn, spec := "-", args := [toString bn, hexRle data] }
+
+def toolcksumEval (args : List String) : String :=
+  match args with
+  | [bn, data] => toolcksumOut (unhex data) bn.toNat!
+  | _ => "bad-args"
+
+def toolcksum : Family := { name := "toolcksum", gen := toolcksumGen, eval := toolcksumEval, fixed := 0 }
 
 end Driver.Fam.Checksum
